@@ -93,6 +93,11 @@ Lexemes(fam) ==
     [] fam = "errs" ->   \* C17: faults next to flags and to 2- and 3-byte characters, inside and outside branches
          <<FlagI, P(cEAC), P(cKIN), P(cA), P(cSEP), P(cSTAR), ROpen, L(<<cCOL, 48, cGT>>, 5), L(<<cCOL, 50, cCOM, 49, cGT>>, 5),
            R12, Open, Comma, Close>>
+    [] fam = "punct" ->  \* characters that mean something in the regular expressions the code compiles to, as
+                         \* literals and as class members: . + | ^ # & ~ space =
+         <<P(cDOT), P(43), P(124), P(94), P(35), P(38), P(126), P(32), P(61), P(cA), P(cSEP), P(cSTAR),
+           L(<<cLB, 38, 38, cRB>>, 0), L(<<cLB, 126, 94, cRB>>, 0), L(<<cLB, 124, cRB>>, 0), L(<<cLB, cBANG, 32, 35, cRB>>, 0),
+           FlagI>>
     [] fam = "deep" ->
          <<P(cA), P(cSEP), Open, Comma, Close, ROpen, R12, R01>>
 
